@@ -43,6 +43,8 @@ def class_ancestors(cls):
         c = stack.pop()
         if isinstance(c, str):
             c = exc_class(c)
+        if not isinstance(c, ClassV):
+            continue      # base class from an unmodelled library
         if c.name in out:
             continue
         out.append(c.name)
@@ -536,6 +538,9 @@ def binop(it, op, a, b, inplace=False):
             a.items.extend(b.items)
             return a
         return PyList(a.items + b.items)
+    if name == 'Add' and isinstance(a, (PyList, SymList, CompSeq)) and isinstance(b, (PyList, SymList, CompSeq)):
+        # concatenation involving a symbolic comprehension result: contents unknown
+        return havoc_list(it, 'concat', a if isinstance(a, (PyList, SymList)) else PyList())
     if name == 'Add' and isinstance(a, tuple) and isinstance(b, tuple):
         return a + b
     if name == 'Add' and (isinstance(a, str) or (isinstance(a, SV) and a.t.sort().eq(StrS))) and \
@@ -595,6 +600,13 @@ def binop(it, op, a, b, inplace=False):
         f = z3.Function('cell_' + name.lower(), Cell, Cell, Cell)
         it.assumptions.add('arithmetic on opaque cells (%s) is an uninterpreted total function' % name)
         return SV(f(it.cell_of(a), it.cell_of(b)))
+    if any(isinstance(x, Opaque) and x.kind in ('result', 'item', 'dictval', 'listelem') for x in (a, b)):
+        # arithmetic with a value returned by an unmodelled call: an uninterpreted function of the operands
+        try:
+            f = z3.Function('cell_' + name.lower(), Cell, Cell, Cell)
+            return SV(f(it.cell_of(a), it.cell_of(b)))
+        except Unsupported:
+            pass
     if name == 'BitOr' and isinstance(a, SetV) and isinstance(b, SetV):
         k = z3.Const('__e', a.elem_sort)
         return SetV(z3.Lambda([k], z3.Or(a.arr[k], b.arr[k])), a.elem_sort)
@@ -920,8 +932,7 @@ def getattr_(it, obj, name):
                 m = find_method(b, name)
                 if m is not None:
                     inst = obj.inst
-                    return BoundMethod(inst, name, lambda it_, recv, *a, **k: it_.call_funcdef(m, [recv] + list(a), k)
-                                       if m.is_gen else it_.run_body(m, [recv] + list(a), k))
+                    return BoundMethod(inst, name, lambda it_, recv, *a, **k: it_.call(m, [recv] + list(a), k))
         if name == '__init__':
             return Builtin('object.__init__', lambda it_, *a, **k: None)
         raise Unsupported('super().%s' % name)
@@ -1616,7 +1627,13 @@ def _str_split(it, s, sep=None, maxsplit=-1):
     raise Unsupported('split of symbolic string')
 
 
-STR_METHODS = {'format': _str_format, 'join': _str_join, 'strip': _str_strip, 'lower': _str_lower,
+def _str_encode(it, s, *a):
+    o = Opaque('bytes', 'encoded')
+    o.attrs['text'] = s
+    return o
+
+
+STR_METHODS = {'encode': _str_encode, 'format': _str_format, 'join': _str_join, 'strip': _str_strip, 'lower': _str_lower,
                'startswith': _str_startswith, 'endswith': _str_endswith, 'split': _str_split}
 
 
